@@ -8,10 +8,10 @@ import AllianceModel
 open Alliance Alliance.Trace
 
 /-- components not predicted for a given operation kind -/
-def maskFor (op : Op) : List String :=
+def maskFor (op : XOp) : List String :=
   match op with
-  | .env => ["*"]
-  | .slash _ _ => ["staking", "supply", "bank.pools"]
+  | .op .env => ["*"]
+  | .op (.slash _ _) => ["staking", "supply", "bank.pools"]
   | _ => []
 
 def isPoolRow (p : (Acct × Denom) × Int) : Bool := p.1.1 == accBonded || p.1.1 == accNotBonded
@@ -19,11 +19,11 @@ def isPoolRow (p : (Acct × Denom) × Int) : Bool := p.1.1 == accBonded || p.1.1
 def maskWorld (mask : List String) (w : World) : World :=
   if mask.contains "bank.pools" then { w with bank := w.bank.filter (fun p => !isPoolRow p) } else w
 
-def compareStep (idx : Nat) (pre : World) (op : Op) (wd : List (ValId × Coins)) (obsRes : String) (post : World) :
+def compareStep (idx : Nat) (pre : World) (op : XOp) (wd : List (ValId × Coins)) (obsRes : String) (post : World) :
     List String := Id.run do
   let mask := maskFor op
   if mask.contains "*" then return [s!"step {idx} skip"]
-  let (res, w') := step op { pre with oracle := wd }
+  let (res, w') := xstep op { pre with oracle := wd }
   let mut out : List String := []
   let mres := rResult res
   if mres ≠ obsRes then
